@@ -195,6 +195,7 @@ var (
 	rUTF8     = Rule{"TAB-UTF8", rules.TabUTF8}
 	rLstClean = Rule{"ORD-LSTCLEAN", rules.OrdLstClean}
 	rBSScr    = Rule{"OWN-BSSCRATCH", rules.OwnBSScratch}
+	rEmptyCp  = Rule{"NIL-EMPTYCOPY", rules.NilEmptyCopy}
 	rFixedLST = Rule{"OWN-FIXEDLST", rules.OwnFixedLST}
 	rReflSet  = Rule{"TAB-REFLECTSET", rules.TabReflectSet}
 	rBounds   = Rule{"TAB-BOUNDS", rules.TabBounds}
@@ -379,23 +380,24 @@ var registry = map[string]*Property{
 		},
 	},
 	"C16": {
-		Decided:    "Only the determinism clause: MarshalText asks for sorted map keys and with that option encodeMap sorts the keys before emitting any field (ORD-SORTMAP); nothing reachable from Marshal*/Encoder/Writer methods consults a time-, random- or schedule-dependent source, and every map range has an order-insensitive body (OWN-NONDET); the one narrowing on the encode path, int64(v.Uint()), happens only under reflect kinds whose values fit (NUM-NARROW, marshal.go); every struct type without exported fields that the decoder recognises by identity (big.Int, Decimal, Timestamp, time.Time) is recognised by the encoder before the generic field walk (TAB-OPAQUE); every reflect.Kind the decoder accepts as a target is dispatched on by the encoder (TAB-KIND); a Go string marshalled as a symbol is written by its text, never through the '$n'-interpreting string API (OWN-TEXTAUTH, marshal obligations); no append in the field, marshal and unmarshal code keeps results of repeated appends to one fixed base slice, so field index paths of siblings never share a backing array (OWN-APPENDALIAS). A case-insensitive field match never ends the field search before every candidate was compared exactly (ORD-EXACTFIRST); the comparator of the key sort compares the keys themselves (ORD-SORTMAP); no exported function ignores a named parameter (OWN-PARAMUSED). No function of marshal.go reaches a mutating reflect call: Marshal never writes through the value it is given (OWN-ENCPURE).",
+		Decided:    "Only the determinism clause: MarshalText asks for sorted map keys and with that option encodeMap sorts the keys before emitting any field (ORD-SORTMAP); nothing reachable from Marshal*/Encoder/Writer methods consults a time-, random- or schedule-dependent source, and every map range has an order-insensitive body (OWN-NONDET); the one narrowing on the encode path, int64(v.Uint()), happens only under reflect kinds whose values fit (NUM-NARROW, marshal.go); every struct type without exported fields that the decoder recognises by identity (big.Int, Decimal, Timestamp, time.Time) is recognised by the encoder before the generic field walk (TAB-OPAQUE); every reflect.Kind the decoder accepts as a target is dispatched on by the encoder (TAB-KIND); a Go string marshalled as a symbol is written by its text, never through the '$n'-interpreting string API (OWN-TEXTAUTH, marshal obligations); no append in the field, marshal and unmarshal code keeps results of repeated appends to one fixed base slice, so field index paths of siblings never share a backing array (OWN-APPENDALIAS). A case-insensitive field match never ends the field search before every candidate was compared exactly (ORD-EXACTFIRST); the comparator of the key sort compares the keys themselves (ORD-SORTMAP); no exported function ignores a named parameter (OWN-PARAMUSED). No function of marshal.go reaches a mutating reflect call: Marshal never writes through the value it is given (OWN-ENCPURE). No slice is copied by appending it to a nil slice, which would turn an empty value into a nil one (NIL-EMPTYCOPY).",
 		Necessary:  "Go's map iteration order is random, so an unsorted map encode or any other nondeterminism source makes MarshalText output differ between runs for the same value.",
 		NotDecided: "value equality after the round trip: field paths through embedded structs, name matching, map keys, pointer/nil handling — behaviour of reflection over caller types",
-		Technique:  "SSA dominance + call-graph reachability from the output API; type-identity and reflect.Kind tables extracted from SSA comparisons; loop/base analysis of append calls; value flow for OWN-TEXTAUTH" + "; loop-structure check around EqualFold (no return reachable without a back edge); comparator purity check; SSA referrer check of parameters" + "; call-graph reachability of mutating reflect methods from marshal.go",
+		Technique:  "SSA dominance + call-graph reachability from the output API; type-identity and reflect.Kind tables extracted from SSA comparisons; loop/base analysis of append calls; value flow for OWN-TEXTAUTH" + "; loop-structure check around EqualFold (no return reachable without a back edge); comparator purity check; SSA referrer check of parameters" + "; call-graph reachability of mutating reflect methods from marshal.go" + "; shape check of append calls with a nil base",
 		DesignRef:  "DESIGN.md §3.5, §3.6, §4 C16",
-		Rules:      []Rule{rOrdSortMap, rOwnNondet, only(rNarrow, 1, posHas("ion/marshal.go")), rOpaque, rKind, only(rTextAuth, 1, posHas("ion/marshal.go", "ion/unmarshal.go")), only(rAppAlias, 2, posHas("ion/fields.go", "ion/marshal.go", "ion/unmarshal.go")), rExactFst, rParamUse, rEncPure},
+		Rules:      []Rule{rOrdSortMap, rOwnNondet, only(rNarrow, 1, posHas("ion/marshal.go")), rOpaque, rKind, only(rTextAuth, 1, posHas("ion/marshal.go", "ion/unmarshal.go")), only(rAppAlias, 2, posHas("ion/fields.go", "ion/marshal.go", "ion/unmarshal.go")), rExactFst, rParamUse, rEncPure, rEmptyCp},
 	},
 	"C17": {
-		Decided:    "In unmarshal.go: token text and the other nil-if-unknown pointer fields are tested before use (NIL-FIELD); accessor results are dereferenced only under the non-null precondition (NIL-ACC, NIL-ARG); Decoder.Decode/DecodeTo return the reader's error or ErrNoInput, never nil, when Next() reports no value (ORD-NOINPUT); every reflective numeric store is dominated by the matching Overflow test on the same value and operand, every signed-to-unsigned conversion by a sign test, every big.Int extraction by IsUint64 (NUM-REFLECT, NUM-NARROW, NUM-BIG in unmarshal.go); a reflective Set under a type-identity test stores a value of exactly that type (TAB-REFLECTSET); every index in unmarshal.go is in bounds (NUM-INDEX, unmarshal obligations). A case-insensitive field match never ends the field search before every candidate was compared exactly (ORD-EXACTFIRST); under each IntSize() case the accessor reached is wide enough (TAB-INTSIZE); no typed accessor answers successfully before the value's type was read (TAB-ACCTYPE).",
+		Decided:    "In unmarshal.go: token text and the other nil-if-unknown pointer fields are tested before use (NIL-FIELD); accessor results are dereferenced only under the non-null precondition (NIL-ACC, NIL-ARG); Decoder.Decode/DecodeTo return the reader's error or ErrNoInput, never nil, when Next() reports no value (ORD-NOINPUT); every reflective numeric store is dominated by the matching Overflow test on the same value and operand, every signed-to-unsigned conversion by a sign test, every big.Int extraction by IsUint64 (NUM-REFLECT, NUM-NARROW, NUM-BIG in unmarshal.go); a reflective Set under a type-identity test stores a value of exactly that type (TAB-REFLECTSET); every index in unmarshal.go is in bounds (NUM-INDEX, unmarshal obligations). A case-insensitive field match never ends the field search before every candidate was compared exactly (ORD-EXACTFIRST); under each IntSize() case the accessor reached is wide enough (TAB-INTSIZE); no typed accessor answers successfully before the value's type was read (TAB-ACCTYPE). No slice is copied by appending it to a nil slice (NIL-EMPTYCOPY).",
 		Necessary:  "A symbol without text ($0) or a typed null reaching an unguarded dereference panics instead of returning an error (F9, fixed); a Decoder that returns nil at the end of the stream never reports ErrNoInput.",
 		NotDecided: "the value × target conversion table, the reader's position after a failed decode",
-		Technique:  "SSA must-dataflow of nil facts; path search to exits; branch-fact dominance of Overflow*/IsUint64 tests; " + numTech + "; loop-structure check around EqualFold; enum value-set dataflow of IntSize(); path search for a type read before successful exits of accessors",
+		Technique:  "SSA must-dataflow of nil facts; path search to exits; branch-fact dominance of Overflow*/IsUint64 tests; " + numTech + "; loop-structure check around EqualFold; enum value-set dataflow of IntSize(); path search for a type read before successful exits of accessors" + "; shape check of append calls with a nil base",
 		DesignRef:  "DESIGN.md §3.2, §3.5, §4 C17",
 		Rules: []Rule{
 			{"NIL-FIELD", rules.NilField(rules.ScopeUnmarshal, 2)}, {"NIL-ACC", rules.NilAcc(rules.ScopeUnmarshal, 10)}, {"NIL-ARG", rules.NilArg(rules.ScopeUnmarshal, 0)}, rOrdNoInput,
 			rReflect, only(rBig, 1, posHas("ion/unmarshal.go")), only(rNarrow, 2, posHas("ion/unmarshal.go")), rReflSet, only(rIndex, 1, posHas("ion/unmarshal.go")),
 			rExactFst, rIntSize, rAccType,
+			rEmptyCp,
 		},
 	},
 	"C18": {
@@ -463,6 +465,7 @@ var devRules = map[string]Rule{
 	"TAB-UTF8":        rUTF8,
 	"ORD-LSTCLEAN":    rLstClean,
 	"OWN-BSSCRATCH":   rBSScr,
+	"NIL-EMPTYCOPY":   rEmptyCp,
 	"NUM-NARROW-TU":   {"NUM-NARROW", rules.NumNarrow(rules.Scope{Name: "textutils.go", Pkgs: []string{"ion"}, Files: []string{"textutils.go"}}, nil, 0)},
 	"NUM-NARROW":      {"NUM-NARROW", rules.NumNarrow(rules.ScopeNum, rules.NarrowResiduals, 0)},
 	"NUM-SHIFT":       {"NUM-SHIFT", rules.NumShift(rules.ScopeNum, rules.ShiftResiduals, 0)},
